@@ -128,15 +128,24 @@ class Problem:
         self.limits = s["limits"]
         self.max_step = s["max_step"]
         vary = []
+        # where the limits / finite-difference steps of a knob come from: given to Vary explicitly, or completed from the
+        # container's vary_default table (both, only the limits, only the step)
+        src = s.get("lim_source", "explicit")
+        if src != "explicit":
+            self.knobs.vary_default = {self.kn[i]: {"limits": None if s["limits"] is None else s["limits"][i], "step": s["steps"]}
+                                       for i in range(nk)}
         for i in range(nk):
-            vary.append(Vary(self.kn[i], self.knobs, limits=None if s["limits"] is None else s["limits"][i],
-                             step=s["steps"], weight=None if s["kw"] is None else s["kw"][i],
+            lim_arg = None if (s["limits"] is None or src in ("defaults_both", "defaults_limits")) else s["limits"][i]
+            step_arg = None if src in ("defaults_both", "defaults_step") else s["steps"]
+            vary.append(Vary(self.kn[i], self.knobs, limits=lim_arg,
+                             step=step_arg, weight=None if s["kw"] is None else s["kw"][i],
                              max_step=None if s["max_step"] is None else s["max_step"][i], tag=self.vtags[i],
                              active=(i not in s["v_inactive"])))
         targets = [Target(i, self.tvals[i], tol=self.tols[i], weight=None if s["tw"] is None else s["tw"][i],
                           action=self.action, tag=self.ttags[i], optimize_log=(i in s.get("optlog", ()))) for i in range(nt)]
         self.opt = Optimize(vary, targets, n_steps_max=s["nsm"], restore_if_fail=s["restore"], show_call_counter=False,
-                            verbose=False, solver_options=s.get("solver_options", {}))
+                            verbose=False, solver_options=s.get("solver_options", {}),
+                            **({"check_limits": s["check_limits"]} if "check_limits" in s else {}))
         if s["dv"]:
             self.opt.disable(vary=list(s["dv"]))
         if s["dt"]:
@@ -234,4 +243,8 @@ def spec_str(spec):
         parts.append(f"disabled_vary={list(s['dv'])}")
     if s["dt"]:
         parts.append(f"disabled_targets={list(s['dt'])}")
+    if s.get("lim_source", "explicit") != "explicit":
+        parts.append(f"limits/step source={s['lim_source']} (container.vary_default)")
+    if "check_limits" in s:
+        parts.append(f"Optimize(check_limits={s['check_limits']})")
     return ", ".join(parts)
